@@ -128,7 +128,7 @@ def drive_real(s, cfgname, mode, max_tokens=None):
 
     def tokev(kind, p0, t, p1):
         pt = pstate.proj_token(t)
-        return dict(e=kind, p0=p0, p1=p1, pos=t.pos, pos_end=t.pos_end, pre=codes(t.pre_space), key=key(pt)), pt
+        return dict(e=kind, p0=p0, p1=p1, pos=t.pos, pos_end=t.pos_end, pre=codes(t.pre_space), key=key(pt), ps=1), pt
     limit = max_tokens if max_tokens is not None else len(s) + 3
     for _ in range(limit + 1):
         p0 = r.cur_pos()
@@ -154,7 +154,7 @@ def drive_real(s, cfgname, mode, max_tokens=None):
         reads.append(pt)
         # MoveTo + Next again
         r.move_to_token(t)
-        events.append(dict(e='MoveTo', p1=r.cur_pos(), pos=t.pos, prelen=len(t.pre_space), key=key(pt)))
+        events.append(dict(e='MoveTo', p1=r.cur_pos(), pos=t.pos, prelen=len(t.pre_space), key=key(pt), ps=1))
         p0 = r.cur_pos()
         t2 = r.next_token(ps)
         ev, _ = tokev('Next', p0, t2, r.cur_pos())
@@ -184,11 +184,11 @@ def predicted_events(s, toks):
             break
         pre = codes(s[p:t['pos']])
         k = key(t)
-        out.append(dict(e='Peek', p0=p, p1=p, pos=t['pos'], pos_end=t['pos_end'], pre=pre, key=k))
-        out.append(dict(e='Next', p0=p, p1=t['pos_end'], pos=t['pos'], pos_end=t['pos_end'], pre=pre, key=k))
-        out.append(dict(e='MoveTo', p1=t['pos'] - t['pre'], pos=t['pos'], prelen=t['pre'], key=k))
+        out.append(dict(e='Peek', p0=p, p1=p, pos=t['pos'], pos_end=t['pos_end'], pre=pre, key=k, ps=1))
+        out.append(dict(e='Next', p0=p, p1=t['pos_end'], pos=t['pos'], pos_end=t['pos_end'], pre=pre, key=k, ps=1))
+        out.append(dict(e='MoveTo', p1=t['pos'] - t['pre'], pos=t['pos'], prelen=t['pre'], key=k, ps=1))
         out.append(dict(e='Next', p0=t['pos'] - t['pre'], p1=t['pos_end'], pos=t['pos'], pos_end=t['pos_end'],
-                        pre=pre, key=k))
+                        pre=pre, key=k, ps=1))
         p = t['pos_end']
     return out
 
@@ -270,6 +270,45 @@ def _validate(ctx, merged):
                                     merged['counters']['deviations_not_kept'])
 
 
+def run_repo_tests(ctx, files=None, kind='reader'):
+    """C->S on the repository's own tests (CCF pattern): every token-reader call the tests cause is recorded
+    by the pytest plugin harness/pytest_recorder.py and validated by TLC against TokStream."""
+    import json
+    import os
+    import subprocess
+    import tempfile
+    d = tempfile.mkdtemp(prefix='verif_rec_')
+    try:
+        out = os.path.join(d, 'rec.json')
+        env = dict(os.environ, VERIF_REC_OUT=out, PYTHONPATH=common.VERIF + ':/repo', PYTHONHASHSEED='0')
+        cmd = ['/venv/bin/python', '-m', 'pytest', '-q', '-p', 'no:cacheprovider', '-p', 'harness.pytest_recorder'] + \
+            [os.path.join('/repo/test', f) for f in (files or [''])]
+        p = subprocess.run(cmd, cwd=d, env=env, capture_output=True, text=True, timeout=1800)
+        if not os.path.exists(out):
+            raise common.MachineryError('recording run of the repository tests produced no traces:\n' + p.stdout[-1500:])
+        with open(out) as f:
+            traces = json.load(f)
+        if kind == 'trees':
+            with open(out + '.trees') as f:
+                return json.load(f)
+    finally:
+        import shutil
+        shutil.rmtree(d, ignore_errors=True)
+    flags, diags = common.validate_traces(ctx, 'TokStream', traces, what='C->S TokStream acceptor on repository-test traces')
+    nev = sum(len(t['ev']) for t in traces)
+    ctx.traces_validated += len(traces)
+    ctx.evaluations += len(traces)
+    ctx.counters['repo_test_reader_traces'] += len(traces)
+    ctx.counters['repo_test_reader_events'] += nev
+    for idx, tr in enumerate(traces):
+        if not flags[idx]:
+            dg = diags.get(idx, {})
+            ctx.violation('acceptor-rejects', dict(s=uncodes(tr['s']), source='repository test suite', cfg='(test)', mode='(test)'),
+                          detail=dg, sig=dict(clause='acceptor-rejects', failed=','.join(dg.get('failed_clauses', [])) or '?',
+                                              source='repo-tests'))
+    ctx.log('repository tests under the recorder: %d reader traces, %d events, %d accepted' % (len(traces), nev, sum(flags)))
+
+
 def _export_jobs(atoms, names, K, modes, timeout, sample_every):
     mc = mc_text(atoms, names)
     jobs = []
@@ -313,6 +352,8 @@ def run(ctx):
         ctx.log('K=%d x %d cfgs: %d executions, %s' % (K, len(names), m['n'],
                 {k: v for k, v in m['counters'].items() if k in ('same', 'deviates')}))
         _validate(ctx, m)
+    run_repo_tests(ctx, None if not quick else ['test_latexnodes_tokenreader.py', 'test_latexnodes_nodescollector.py',
+                                                'test_latexnodes_parsers_delimited.py', 'test_2_latexwalker.py'])
     ctx.exhaustive = True
     ctx.assumptions += ['token equality is equality of the public projection (kind, argument, positions, pre/post space)']
 
